@@ -227,6 +227,9 @@ func runModel(c *Ctx) {
 	qLen, qSlice, qAt := compile("length"), compile(".[$i:$j]", "$i", "$j"), compile(".[$i]", "$i")
 	qIndices, qIndex, qRindex := compile("indices($x)", "$x"), compile("index($x)", "$x"), compile("rindex($x)", "$x")
 	qMatch := compile("[match($re; $flags)]", "$re", "$flags")
+	qSplits := compile("[splits($re; $flags)]", "$re", "$flags")
+	qGsubId := compile(`gsub("(?<zz>" + $re + ")"; .zz; $flags)`, "$re", "$flags")
+	qSubId := compile(`sub("(?<zz>" + $re + ")"; .zz; $flags)`, "$re", "$flags")
 
 	maxExh := 3
 	if c.Tier == "thorough" {
@@ -279,7 +282,7 @@ func runModel(c *Ctx) {
 	}
 	perSubject := 10
 	if c.Tier == "thorough" {
-		perSubject = 60
+		perSubject = 24
 	}
 	for _, s := range subjects {
 		for k := 0; k < perSubject; k++ {
@@ -311,6 +314,25 @@ func runModel(c *Ctx) {
 			impl := run1(qMatch, s, re, flags)
 			c.Emit("(match %s %s %s %s %s %s)", SexpVal(re), SexpVal(flags), SexpVal(s), SexpVal(namesAny), SexpVal(xsAny), rs(impl))
 			c.Count("match")
+			// the jq-defined reductions, judged through their Gallina transcriptions: splits always matches
+			// globally; sub replaces the first match, gsub all of them
+			all := g.FindAllStringSubmatchIndex(s, -1)
+			allAny := make([]any, len(all))
+			for i, x := range all {
+				allAny[i] = intsAny(x[:2])
+			}
+			firstAny := allAny
+			if len(firstAny) > 1 {
+				firstAny = firstAny[:1]
+			}
+			c.Emit("(splits %s %s %s %s %s)", SexpVal(re), SexpVal(flags), SexpVal(s), SexpVal(allAny), rs(run1(qSplits, s, re, flags)))
+			c.Emit("(gsubid %s %s %s %s %s)", SexpVal(re), SexpVal(flags), SexpVal(s), SexpVal(allAny), rs(run1(qGsubId, s, re, flags)))
+			subXs := firstAny
+			if global {
+				subXs = allAny
+			}
+			c.Emit("(gsubid %s %s %s %s %s)", SexpVal(re), SexpVal(flags), SexpVal(s), SexpVal(subXs), rs(run1(qSubId, s, re, flags)))
+			c.Count("splits/sub/gsub")
 		}
 	}
 }
@@ -325,9 +347,13 @@ type oracleRunner struct {
 }
 
 func (o *oracleRunner) fail(name, subject, re string, flags any, detail string) {
+	o.failCase(name, caseText(subject, re, flags), detail)
+}
+
+func (o *oracleRunner) failCase(name, text, detail string) {
 	o.nfail++
 	if o.nfail <= 40 {
-		o.c.Violation("oracle=%s %s :: %s", name, caseText(subject, re, flags), detail)
+		o.c.Violation("oracle=%s %s :: %s", name, text, detail)
 	}
 }
 
@@ -493,18 +519,18 @@ func (o *oracleRunner) oneCase(s, re string, flags any) {
 
 // positions on the implementation alone: length == explode|length, .[i:j] == explode|.[i:j]|implode,
 // every reported index is where slicing finds the needle
-func (o *oracleRunner) positions(s string, r *Rng) {
+func (o *oracleRunner) positions(s string, r *Rng, extra ...string) {
 	q := compile(`. as $s | (length == (explode | length)) and
 		all(range(-4; 6) as $i | range(-4; 6) as $j | [$i, $j]; . as [$i, $j] | ($s[$i:$j] | explode) == ($s | explode | .[$i:$j])) and
 		all(range(-4; 6); . as $i | ($s[$i] as $c | if $c == null then ($s | explode | .[$i]) == null else ($c | explode) == [$s | explode | .[$i]] end))`)
 	o.evals++
 	if out := run1(q, s); out != true {
-		o.fail("positions", s, "", nil, "length/slice/index disagree with explode: "+rs(out))
+		o.failCase("positions", "subject="+Hexs([]byte(s)), "length/slice/index disagree with explode: "+rs(out))
 	}
 	qi := compile(`. as $s | all(indices($x)[]; . as $i | $s[$i:$i + ($x | length)] == $x) and
 		(index($x) == (indices($x) | first)) and (rindex($x) == (indices($x) | last))`, "$x")
 	rs2 := []rune(s)
-	needles := []string{"a", "é", "€", "́", "ab", "\U0001f600"}
+	needles := append([]string{"a", "é", "€", "́", "ab", "\U0001f600"}, extra...)
 	if len(rs2) > 0 {
 		i := r.Intn(len(rs2))
 		j := i + 1 + r.Intn(len(rs2)-i)
@@ -513,7 +539,7 @@ func (o *oracleRunner) positions(s string, r *Rng) {
 	for _, x := range needles {
 		o.evals++
 		if out := run1(qi, s, x); out != true {
-			o.fail("indices-slice", s, x, nil, "indices/index/rindex disagree with slicing: "+rs(out))
+			o.failCase("indices-slice", "subject="+Hexs([]byte(s))+" needle="+Hexs([]byte(x)), "indices/index/rindex disagree with slicing: "+rs(out))
 		}
 	}
 }
@@ -532,7 +558,7 @@ func runRegex(c *Ctx) {
 				panic(err)
 			}
 			for _, line := range strings.Split(string(data), "\n") {
-				var sub, re, fl string
+				var sub, re, fl, needle string
 				for _, f := range strings.Fields(line) {
 					if v, ok := strings.CutPrefix(f, "subject="); ok {
 						sub = v
@@ -540,6 +566,8 @@ func runRegex(c *Ctx) {
 						re = v
 					} else if v, ok := strings.CutPrefix(f, "flags="); ok {
 						fl = v
+					} else if v, ok := strings.CutPrefix(f, "needle="); ok {
+						needle = v
 					}
 				}
 				if sub == "" {
@@ -556,11 +584,13 @@ func runRegex(c *Ctx) {
 				if fl != "null" && fl != "" {
 					flags = unhex(fl)
 				}
-				o.oneCase(unhex(sub), unhex(re), flags)
-				o.positions(unhex(sub), r)
 				if re != "" {
-					// position cases carry the needle in the re field
-					o.evals++
+					o.oneCase(unhex(sub), unhex(re), flags)
+				}
+				if needle != "" {
+					o.positions(unhex(sub), r, unhex(needle))
+				} else {
+					o.positions(unhex(sub), r)
 				}
 			}
 			return
